@@ -5,7 +5,7 @@
 //!       calls): for every font, every fan call is executed after the history on one Font object
 //!       and on a freshly loaded one (carrying the same image-filter configuration); the two
 //!       results are compared by value. Events are judged by Trace_FontCache.
-//!   c03_purity record <seed> <histories> <len> <trace.ndjson>
+//!   c03_purity record <seed> <histories> <len> <fill> <trace.ndjson>
 //!       random long histories over a richer concrete universe, every call compared with fresh.
 //!       Fonts come in three families, named by the CASE: `intact` (repository fonts and synthesized
 //!       ones), `dmg` (the same fonts served through a table provider that truncates one or several
@@ -760,6 +760,19 @@ fn damage_bases(all: &[FontCfg]) -> Vec<FontCfg> {
     all.iter().filter(|c| ["synth-all", "synth-morx", "opensans", "lohit-hi", "sbix-dupe", "svg-gzipped"].contains(&c.name.as_str())).cloned().collect()
 }
 
+/// The keys font of MC_FontCache (one single substitution per feature, both language systems have them all),
+/// for the random fill histories.
+fn keys_desc() -> Value {
+    let feats = ["frac", "vert", "rvrn", "liga", "ccmp", "calt", "clig", "rlig", "locl", "smcp", "onum", "lnum", "tnum", "zero"];
+    let content = ["12", "A", "B", "C", "D", "E", "F", "G", "H", "I", "J", "K", "L", "M"];
+    let lookups: Vec<Value> = feats.iter().zip(content.iter()).enumerate().map(|(j, (f, c))| {
+        let sub = 2560 + 32 * j;
+        json!({"tbl": "GSUB", "idx": j, "feat": f, "typ": "single", "ext": false, "sub": sub, "l2": true,
+               "objs": [{"kind": "cov", "pos": sub + 8, "rel": 8, "content": c}], "nested": []})
+    }).collect();
+    json!({"fam": "fill", "damaged": [], "lookups": lookups, "imgs": 0, "sub": "keys"})
+}
+
 fn is_l2(feat: &str) -> bool {
     ["dlig", "rlig", "smcp"].contains(&feat)
 }
@@ -1107,6 +1120,7 @@ struct Universe {
     img_fresh: Vec<Value>,
     fill: BTreeMap<String, Vec<Rc<FontCfg>>>,
     fill_selfchecks: Vec<Value>,
+    fill_fresh: Vec<Value>,
 }
 
 /// Facts about a fill font measured on its bytes (own reader): every Coverage of the layout lies where the
@@ -1133,7 +1147,7 @@ impl Universe {
         let bases = damage_bases(&intact);
         let intact = intact.into_iter().map(Rc::new).collect();
         Universe { intact, bases, dmg: BTreeMap::new(), collide: BTreeMap::new(), dropped: 0, selfchecks: vec![],
-                   img: BTreeMap::new(), img_selfchecks: vec![], img_fresh: vec![], fill: BTreeMap::new(), fill_selfchecks: vec![] }
+                   img: BTreeMap::new(), img_selfchecks: vec![], img_fresh: vec![], fill: BTreeMap::new(), fill_selfchecks: vec![], fill_fresh: vec![] }
     }
 
     fn of(&mut self, desc: &Value, modes: &[Mode]) -> Vec<Rc<FontCfg>> {
@@ -1184,6 +1198,7 @@ impl Universe {
                     } else {
                         let cfg = collide_font(&format!("fill-{}", sub), desc);
                         self.fill_selfchecks.push(fill_selfcheck(&cfg));
+                        self.fill_fresh.push(fill_fresh_results(&cfg));
                         vec![Rc::new(cfg)]
                     };
                     self.fill.insert(key.clone(), v);
@@ -1210,6 +1225,30 @@ fn img_fresh_results(cfg: &FontCfg) -> Value {
     json!({"font": cfg.name, "selections": by_sel.len(), "distinct_images": all.len(),
            "one_image_per_selection": by_sel.values().all(|v| v.len() == 1),
            "none_under_empty_selection": by_sel.get(&0).map(|v| v.iter().all(|r| r == "None")).unwrap_or(true)})
+}
+
+/// What allsorts answers on FRESH fill fonts (diagnostic, judged by the driver only after the violations):
+/// shaping with each single feature of the layout (as a mask on the keys font, as a custom list on the lookups
+/// font) and with none gives pairwise different results - except `rvrn`, which a mask without a tuple ignores.
+fn fill_fresh_results(cfg: &FontCfg) -> Value {
+    let custom = cfg.desc["sub"] != "keys";
+    let mut outs = std::collections::BTreeSet::new();
+    let mut sets: Vec<Vec<String>> = vec![vec![]];
+    sets.extend(cfg.feats.iter().filter(|f| custom || *f != "rvrn").map(|f| vec![f.clone()]));
+    for fs in &sets {
+        let c = Call::Shape {
+            text: cfg.words[0].clone(),
+            script: cfg.scripts[0],
+            lang: None,
+            mask: fs.iter().fold(0u64, |m, t| m | FeatureMask::from_tag(tag_u32(t)).bits()),
+            custom,
+            ctags: fs.iter().map(|f| tag_u32(f)).collect(),
+            tuple: None,
+            kern: false,
+        };
+        outs.insert(run_both(cfg, &[], &c).1);
+    }
+    json!({"font": cfg.name, "feature_sets": sets.len(), "distinct_results": outs.len()})
 }
 
 fn scopes_cfg(objs: &[(String, usize, String)]) -> FontCfg {
@@ -1408,7 +1447,7 @@ fn replay(cases: &str, out: &str) {
         "histories_by_family": fam_hist, "probes_by_family": fam_probes, "differs_by_family": fam_differs,
         "damaged_variants": uni.dmg.values().map(|v| v.len()).sum::<usize>(), "damaged_variants_dropped": uni.dropped,
         "damaged_probes_reporting_the_error": dmg_error_probes, "collide_selfcheck": uni.selfchecks,
-        "img_selfcheck": uni.img_selfchecks, "img_fresh_results": uni.img_fresh, "fill_selfcheck": uni.fill_selfchecks, "input_facts": facts.json()}));
+        "img_selfcheck": uni.img_selfchecks, "img_fresh_results": uni.img_fresh, "fill_selfcheck": uni.fill_selfchecks, "fill_fresh_results": uni.fill_fresh, "input_facts": facts.json()}));
 }
 
 // ---- random long histories --------------------------------------------------------------------
@@ -1512,6 +1551,25 @@ fn random_call(rng: &mut StdRng, cfg: &FontCfg) -> Call {
     let chars = ['A', 'B', 'a', '\u{25CC}', '\u{25CC}', '\u{1F600}', '\u{2764}', '\u{0915}', '\u{0644}'];
     let vss = [None, None, Some(15u8), Some(16u8), Some(1u8)];
     // on a font with a damaged table ask for the tables more often; on a collide font shape more often
+    if cfg.fam == "scopes" {
+        // words: "kind:pos:content" of every object of the buffer
+        let o: Vec<&str> = cfg.words.choose(rng).unwrap().split(':').collect();
+        return Call::ReadCached {
+            route: ["offset", "offset_length", "read_scope", "nested"][rng.gen_range(0..4)].to_string(),
+            kind: o[0].to_string(),
+            pos: o[1].parse().unwrap(),
+            content: o[2].to_string(),
+        };
+    }
+    if cfg.fam == "img" {
+        return match rng.gen_range(0..10) {
+            0..=3 => set_filter(rng.gen_range(0..16)),
+            4 | 5 => Call::Image { g: rng.gen_range(0..6), ppem: [16, 100, 300][rng.gen_range(0..3)] },
+            6 | 7 => Call::HasImages,
+            8 => Call::LookupGlyph { ch: '\u{1F600}', required: true, vs: [None, Some(16u8), Some(15u8)][rng.gen_range(0..3)] },
+            _ => Call::MapGlyphs { text: "A\u{1F600}\u{25CC}\u{FE0F}".into(), script: cfg.scripts[0], required: true },
+        };
+    }
     let roll = match cfg.fam {
         "dmg" => [0, 4, 7, 8, 9, 14, 15, 16, 18, 20, 20, 20, 20, 21][rng.gen_range(0..14)],
         "collide" => [0, 4, 7, 7, 7, 7, 7, 7, 7, 17, 20, 21][rng.gen_range(0..12)],
@@ -1579,20 +1637,88 @@ fn random_call(rng: &mut StdRng, cfg: &FontCfg) -> Call {
     }
 }
 
-/// Random histories, one third on intact fonts, one third on fonts with damaged tables (one or two
-/// kinds; truncated to 3 bytes, cut in the middle, or not delivered), one third on collide fonts whose
-/// layout is shifted by a seed-dependent amount and whose far sub-tables lie 1..3 x 65536 further.
-fn record(seed: u64, histories: usize, len: usize, out: &str) {
+/// One Font lives through all `calls`; every call is also made on a fresh font that carries the last image
+/// filter.  Returns (result on the long-lived font, result on the fresh font) per call; a panic ends the life of
+/// the Font (the call is reported, the rest of the history is dropped).
+fn run_incremental(cfg: &FontCfg, calls: &[Call]) -> Vec<(String, String)> {
+    let data = &cfg.data[..];
+    let fresh_of = |last_filter: Option<&Call>, probe: &Call| match guarded(|| with_font(data, &cfg.damage, |font| {
+        if let Some(f) = last_filter {
+            let _ = exec(font, f);
+        }
+        exec(font, probe)
+    })) {
+        Outcome::Returned(Some(s)) => s,
+        Outcome::Returned(None) => "LOADFAIL".into(),
+        Outcome::Panicked(m) => format!("PANIC {}", vh::sup::panic_key(&m)),
+    };
+    let mut out = Vec::new();
+    let _ = guarded(|| with_font(data, &cfg.damage, |font| {
+        let mut last_filter: Option<&Call> = None;
+        for c in calls {
+            let fresh = fresh_of(last_filter, c);
+            match guarded(|| exec(font, c)) {
+                Outcome::Returned(s) => out.push((s, fresh)),
+                Outcome::Panicked(m) => {
+                    out.push((format!("PANIC {}", vh::sup::panic_key(&m)), fresh));
+                    break;
+                }
+            }
+            if matches!(c, Call::SetFilter { .. }) {
+                last_filter = Some(c);
+            }
+        }
+    }));
+    out
+}
+
+/// A shaping call with arguments drawn so that (script, language, feature mask) hardly ever repeats: scripts and
+/// languages nobody has heard of next to the font's own, masks with and without FRAC / RVRN / VRT2_OR_VERT, texts
+/// with fractions.
+fn random_key_call(rng: &mut StdRng, cfg: &FontCfg) -> Call {
+    let script = match rng.gen_range(0..6) {
+        0 | 1 => cfg.scripts[0],
+        2 => cfg.scripts[1],
+        3 => tagv("DFLT"),
+        _ => tag_u32(&format!("z{:03}", rng.gen_range(3..40))),
+    };
+    let lang = match rng.gen_range(0..5) {
+        0 => None,
+        1 => Some(cfg.lang),
+        _ => Some(tag_u32(&format!("Q{:03}", rng.gen_range(3..60)))),
+    };
+    let special = (FeatureMask::FRAC | FeatureMask::RVRN | FeatureMask::VRT2_OR_VERT).bits();
+    let mask = match rng.gen_range(0..6) {
+        0 => FeatureMask::default().bits(),
+        1 => FeatureMask::default().bits() | FRAC_BIT,
+        2 => FeatureMask::all().bits(),
+        3 => (rng.gen::<u64>() & FeatureMask::all().bits()) | FRAC_BIT,
+        4 => rng.gen::<u64>() & FeatureMask::all().bits() & !special,
+        _ => (rng.gen::<u64>() & special) | FeatureMask::LIGA.bits(),
+    };
+    let mut text = cfg.words.choose(rng).unwrap().clone();
+    if rng.gen_bool(0.6) {
+        text.push_str([" 1/2", "3/4 ", " 12/345x"][rng.gen_range(0..3)]);
+    }
+    Call::Shape { text, script, lang, mask, custom: false, ctags: vec![], tuple: if rng.gen_bool(0.1) { Some(vec![0.0]) } else { None }, kern: rng.gen_bool(0.5) }
+}
+
+/// Random histories, a fifth each on intact fonts, on fonts with damaged tables (one or two kinds; truncated to
+/// 3 bytes, cut in the middle, or not delivered), on collide fonts whose layout is shifted by a seed-dependent
+/// amount and whose far sub-tables lie 1..3 x 65536 further, on fonts with two to four image tables (random
+/// filters and image queries), and on a ReadCache read through scopes derived by every route.  Then one long
+/// history of `fill` shaping calls with ever new (script, language, mask) keys per font that has a GSUB.
+fn record(seed: u64, histories: usize, len: usize, fill: usize, out: &str) {
     let mut rng = StdRng::seed_from_u64(seed);
     let mut uni = Universe::new();
     let intact = uni.intact.clone();
     let modes = [Mode::Trunc(3), Mode::Half, Mode::Fail];
     let mut dmg: Vec<Rc<FontCfg>> = Vec::new();
     for k in KINDS {
-        dmg.extend(uni.of(&json!({"fam": "dmg", "damaged": [k], "lookups": []}), &modes));
+        dmg.extend(uni.of(&json!({"fam": "dmg", "damaged": [k], "lookups": [], "imgs": 7, "sub": ""}), &modes));
     }
     for ks in [["gsub", "gpos"], ["gdef", "kern"], ["vhea", "vmtx"], ["gsub", "morx"]] {
-        dmg.extend(uni.of(&json!({"fam": "dmg", "damaged": ks, "lookups": []}), &modes));
+        dmg.extend(uni.of(&json!({"fam": "dmg", "damaged": ks, "lookups": [], "imgs": 7, "sub": ""}), &modes));
     }
     dmg.shuffle(&mut rng);
     let mut collide: Vec<Rc<FontCfg>> = Vec::new();
@@ -1601,6 +1727,20 @@ fn record(seed: u64, histories: usize, len: usize, out: &str) {
         let far = 65536 * rng.gen_range(1..4usize);
         collide.extend(uni.of(&collide_desc(&tbls, shift, far), &modes));
     }
+    let mut img: Vec<Rc<FontCfg>> = Vec::new();
+    for m in 1..16u8 {
+        if m.count_ones() >= 2 {
+            img.extend(uni.of(&json!({"fam": "img", "damaged": [], "lookups": [], "imgs": m, "sub": ""}), &modes));
+        }
+    }
+    img.shuffle(&mut rng);
+    // scopes: four objects, two of them congruent mod 2^16, at seed-dependent positions
+    let p0 = 32 + 2 * rng.gen_range(0..64usize);
+    let objs: Vec<(String, usize, String)> = vec![("cov".into(), p0, "A".into()), ("cov".into(), p0 + 256, "BC".into()),
+        ("cov".into(), p0 + 65536 * rng.gen_range(1..3usize), "D".into()), ("cls".into(), p0 + 128, "EF".into()), ("cls".into(), p0 + 384, "G".into())];
+    let mut sc = scopes_cfg(&objs);
+    sc.words = objs.iter().map(|(k, p, c)| format!("{}:{}:{}", k, p, c)).collect();
+    let scopes = vec![Rc::new(sc)];
     let mut w = NdWriter::create(out);
     let mut i = 0u64;
     let mut n_differs = 0usize;
@@ -1608,9 +1748,10 @@ fn record(seed: u64, histories: usize, len: usize, out: &str) {
     let mut fam_differs: BTreeMap<String, usize> = BTreeMap::new();
     let mut dmg_error_calls = 0usize;
     let mut n_panics = 0usize;
+    let mut facts = InputFacts::default();
     for h in 0..histories {
-        let pool = [&intact, &dmg, &collide][h % 3];
-        let cfg = &pool[(h / 3) % pool.len()];
+        let pool = [&intact, &dmg, &collide, &img, &scopes][h % 5];
+        let cfg = &pool[(h / 5) % pool.len()];
         let case_id = format!("{}/r{}-{}", cfg.name, seed, h);
         *fam_hist.entry(cfg.fam.to_string()).or_default() += 1;
         i += 1;
@@ -1644,10 +1785,52 @@ fn record(seed: u64, histories: usize, len: usize, out: &str) {
                 history.push(c);
             }
         }
+        facts.history(cfg, &history, &[]);
+    }
+    // long histories of ever new keys, one Font per history
+    let mut fill_fonts: Vec<Rc<FontCfg>> = intact.iter().filter(|c| ["opensans", "inter-vf", "noto-naskh", "lohit-hi", "synth-fv"].contains(&c.name.as_str())).cloned().collect();
+    if fill > 0 {
+        fill_fonts.extend(uni.of(&keys_desc(), &modes));
+    }
+    let mut fill_args: BTreeMap<String, usize> = BTreeMap::new();
+    let mut fill_frac_calls = 0usize;
+    for (h, cfg) in fill_fonts.iter().enumerate() {
+        if fill == 0 {
+            break;
+        }
+        let case_id = format!("{}/f{}-{}", cfg.name, seed, h);
+        *fam_hist.entry("fill-random".to_string()).or_default() += 1;
+        i += 1;
+        w.write(&json!({"i": i, "case": case_id, "ev": "Init", "a": {"font": cfg.desc, "name": cfg.name}, "o": {}}));
+        let calls: Vec<Call> = (0..fill).map(|_| random_key_call(&mut rng, cfg)).collect();
+        let distinct: std::collections::BTreeSet<_> = calls.iter().filter_map(|c| match c { Call::Shape { script, lang, mask, .. } => Some((*script, *lang, *mask)), _ => None }).collect();
+        fill_args.insert(cfg.name.clone(), distinct.len());
+        fill_frac_calls += calls.iter().filter(|c| matches!(c, Call::Shape { mask, text, .. } if mask & FRAC_BIT != 0 && text.contains('/'))).count();
+        let results = run_incremental(cfg, &calls);
+        for (c, (after, fresh)) in calls.iter().zip(results.iter()) {
+            let differs = after != fresh;
+            if differs {
+                n_differs += 1;
+                *fam_differs.entry("fill-random".to_string()).or_default() += 1;
+            }
+            let mut o = json!({"differs": differs});
+            if differs {
+                o["after"] = json!(after.chars().take(300).collect::<String>());
+                o["fresh"] = json!(fresh.chars().take(300).collect::<String>());
+            }
+            let panicked = after.starts_with("PANIC");
+            if panicked {
+                n_panics += 1;
+            }
+            i += 1;
+            w.write(&json!({"i": i, "case": case_id, "ev": "Call", "a": {"call": abstract_of(c, cfg), "probe": panicked, "font": cfg.name}, "o": o}));
+        }
     }
     let n = w.n;
     w.finish();
-    println!("{}", json!({"histories": histories, "events": n, "differs": n_differs, "histories_by_family": fam_hist,
+    println!("{}", json!({"histories": histories + if fill > 0 { fill_fonts.len() } else { 0 }, "events": n, "differs": n_differs, "histories_by_family": fam_hist,
+        "input_facts": facts.json(), "fill_random_distinct_arguments": fill_args, "fill_random_fraction_calls": fill_frac_calls,
+        "img_selfcheck": uni.img_selfchecks, "img_fresh_results": uni.img_fresh,
         "differs_by_family": fam_differs, "damaged_fonts": dmg.len(), "damaged_variants_dropped": uni.dropped,
         "damaged_calls_reporting_the_error": dmg_error_calls, "calls_that_panicked": n_panics, "collide_selfcheck": uni.selfchecks}));
 }
@@ -1737,7 +1920,7 @@ fn main() {
     let args: Vec<String> = std::env::args().collect();
     match args.get(1).map(|s| s.as_str()) {
         Some("replay") => replay(&args[2], &args[3]),
-        Some("record") => record(args[2].parse().unwrap(), args[3].parse().unwrap(), args[4].parse().unwrap(), &args[5]),
+        Some("record") => record(args[2].parse().unwrap(), args[3].parse().unwrap(), args[4].parse().unwrap(), args[5].parse().unwrap(), &args[6]),
         Some("repeat") => repeat(args[2].parse().unwrap(), &args[3]),
         _ => {
             eprintln!("usage: c03_purity replay|record|repeat ...");
